@@ -151,6 +151,7 @@ fn strategy(k: FloatKind) -> BoxedStrategy<Case> {
         3 => gen::fastpath_text(k, rx, b'.', b'e'),
         1 => gen::range_edge_text(k, rx, b'.', b'e'),
         1 => gen::beyond_range_text(k, rx, b'.', b'e'),
+        1 => gen::limb_aligned_text(k, rx, b'.', b'e'),
     ];
     (text, any::<u16>()).prop_map(|((text, class), j)| Case { text, class, junk: JUNK[gen::pick(j, JUNK.len())] }).boxed()
 }
